@@ -50,6 +50,12 @@ instance, FeatureList members, a state-independent ModuleOutput next to prev_hed
 hedger]), .of(another derivative)) / read through get_input / used by a third hedger; the two hedgers used in turn on the same and on another derivative (compute_hedge /
 compute_pl / compute_portfolio / get_input / compute_loss / price): every answer bitwise that of a fresh hedger with the same parameters holding newly built feature objects on
 the same series; fixed corpus (kind x earlier use) for every seed.
+
+the global random stream (rng_check around every monitored call and every non-simulating hedger call of the history parts; part "random stream after a computation"): a
+computation that does not simulate - payoff, every feature incl. empty / zeros / ones / ModuleOutput, listed prices, get_input / compute_hedge / compute_portfolio / compute_pl,
+criteria, Greeks, functionals - leaves torch.get_rng_state() bitwise unchanged (compute_loss / price / fit / simulate draw by specification: excluded); and inside ONE seeded
+run such a computation on an already simulated derivative followed by derivative.simulate / stock.simulate / Hedger.price / compute_loss / fit gives bitwise the series and the
+answer of the same seeded run without it (newly built objects, constructed before the seed is set); fixed corpus computation x follow-up for every seed and tier.
 """
 import copy
 import math
@@ -147,14 +153,31 @@ def check(ctx):
                      key=f"series_replaced:{name}", detail=replaced)
         return cast + replaced
 
+    # ---- the GLOBAL random stream.  simulate() of every instrument draws from torch's default generator; the series a seeded run simulates at some point are
+    # determined by the seed and by how much of the stream was consumed before.  A computation that does not simulate (payoff, features, listed prices, hedge,
+    # P&L, portfolio, criteria, Greeks, functionals) leaves torch.get_rng_state() bitwise as it was - else what is simulated (priced, fitted) afterwards
+    # depends on which computations ran before.  compute_loss / price / fit / simulate draw by their specification: excluded (simulates=True).
+    rng_seen = set()          # (one failing input per call name: the sweep repeats every call on every market)
+
+    def rng_check(name, before, case):
+        ctx.stats["rng_state_checked"] += 1
+        if not torch.equal(before, torch.get_rng_state()) and name not in rng_seen:
+            rng_seen.add(name)
+            ctx.fail(f"{name} (which does not simulate) advanced torch's global random stream: what a seeded run simulates / prices / fits afterwards depends on "
+                     "this computation having run before", (case or {}) | {"call": name}, key=f"rng_consumed:{name}",
+                     detail="torch.get_rng_state() after the call differs from the state before it")
+
     def call_held(name, case, fn, *args, watch=(), simulates=False, **kw):
-        """call_impl + the registry comparison (for the history parts, which call call_impl themselves)"""
+        """call_impl + the registry comparison + the global random stream (for the history parts, which call call_impl themselves)"""
         held = series_held([(f"arg{i}", a) for i, a in enumerate(args)] + list(kw.items()) + list(watch))
+        rng0 = torch.get_rng_state()
         out = call_impl(fn, *args, watch=list(watch), **kw)
+        if not simulates:
+            rng_check(name, rng0, case)
         series_check(name, held, case, simulates)
         return out
 
-    def monitored(name, fn, *args, watch=(), case=None, prog=None, **kw):
+    def monitored(name, fn, *args, watch=(), case=None, prog=None, simulates=False, **kw):
         """call the implementation under the bitwise mutation monitor; with `prog` = name of the Lean heap program modelling the
         call, also compare the OBSERVED aliasing of the result (does it share storage with a buffer / caller tensor that existed
         before the call?) with the model: aliasing where the model proves the result fresh is a broken correspondence"""
@@ -166,7 +189,10 @@ def check(ctx):
                 if ref.numel() > 0:
                     pre.add(ref.untyped_storage().data_ptr())
         held = series_held([(f"arg{i}", a) for i, a in enumerate(args)] + list(kw.items()) + list(watch))
+        rng0 = torch.get_rng_state()
         st, v, mut = call_impl(fn, *args, watch=list(watch), **kw)
+        if not simulates:
+            rng_check(name, rng0, case)
         series_check(name, held, case)          # (no monitored call simulates an instrument it is given)
         ctx.stats[f"call={name}"] += 1
         if mut:
@@ -465,7 +491,7 @@ def check(ctx):
         # simulation with caller-provided initial states / re-simulation leaves caller tensors alone
         init = (torch.tensor(1.5, dtype=dt),)
         monitored("BrownianStock.simulate(init_state tensor)", u.simulate if mk["primary"] == "BrownianStock" else I.BrownianStock(dtype=dt).simulate,
-                  n_paths=3, init_state=init, case=case)
+                  n_paths=3, init_state=init, case=case, simulates=True)
     ctx.extra["monitored_calls"] = calls
     ctx.extra["functionals_swept"] = len(FN_PUBLIC) - len(unmapped)
     ctx.extra["functionals_unmapped"] = sorted(unmapped)
@@ -585,6 +611,115 @@ def check(ctx):
             return v1 == v2 if s1 != "ok" else True
         return v1.dtype == v2.dtype and v1.shape == v2.shape and bool(((v1 == v2) | (v1.isnan() & v2.isnan())).all())
 
+    # ------------------------------------------------------------------ the random stream after a computation
+    # inside ONE seeded run: a computation on an already simulated derivative (every feature both ways of reading incl. empty / zeros / ones / ModuleOutput, payoff, listed
+    # price, get_input / compute_hedge / compute_portfolio / compute_pl of hedgers with `empty` / `zeros` / a ModuleOutput among the inputs, of BS / WW hedgers, criteria,
+    # BS module price / delta, an automatic Greek) followed by something that simulates (derivative.simulate, stock.simulate, Hedger.price / compute_loss / fit) - vs the
+    # same seeded run without the computation, on newly built objects of the same construction: the series simulated afterwards (every buffer of the underlier) and
+    # the answer (price, loss, parameters + losses of fit) are bitwise the same.  All objects are built BEFORE the seed is set (constructors of torch layers draw
+    # from the stream); the follow-up hedgers have inputs whose values are defined (or a model that ignores its input: Naked on `empty`).  Fixed corpus
+    # (computation x follow-up by index): every class occurs for every seed and on every tier.
+    import pfhedge.autogreek as ag_s
+    STREAM_FOLLOW = ["derivative.simulate", "Hedger.price", "Hedger.compute_loss", "Hedger.fit", "stock.simulate", "Hedger(Naked,[empty]).price"]
+
+    def stream_computations(mk, d, thr):
+        """-> [(name, thunk)] of computations that do not simulate; every object is constructed here, the thunks only compute"""
+        T = mk["T"]
+        out = []
+        for name in BASE_FEATURES:
+            f = get_feature(feature_obj(torch, name, mk, thr)).of(d, None)
+            out.append((f"feature.{name}.get(None)", lambda f=f: f.get(None)))
+            out.append((f"feature.{name}.get(i)", lambda f=f, i=g.randint(0, T - 1): f.get(i)))
+        mo = nn_module_output(torch, mk, thr, g).of(d, None)
+        out.append(("feature.module_output.get(None)", lambda: mo.get(None)))
+        out.append(("derivative.payoff", d.payoff))
+        out.append(("derivative.spot(listed)", lambda: d.spot))
+        out.append(("derivative.moneyness", lambda: d.moneyness(None)))
+        hedgers = [("Naked,[empty]", Hedger(nn.Naked(), ["empty"])),
+                   ("linear,[empty,zeros,module_output]", Hedger(model_obj(torch, gen_linear(g, 4, 1)), ["empty", "zeros", nn_module_output(torch, mk, thr, g)])),
+                   ("linear,[log_moneyness,empty,prev_hedge]", Hedger(model_obj(torch, gen_linear(g, 3, 1)), ["log_moneyness", "empty", "prev_hedge"]))]
+        volpos = all(v > 0 for r in mk["vol"] for v in r)
+        if volpos and not (mk["option"] in ("LookbackOption", "AmericanBinaryOption") and not mk["call"]):
+            bs, ww = BlackScholes(d), WhalleyWilmott(d)
+            hedgers += [("BlackScholes", Hedger(bs, bs.inputs())), ("WhalleyWilmott", Hedger(ww, ww.inputs()))]
+            out.append(("BlackScholes.price", bs.price))
+            out.append(("BlackScholes.delta", bs.delta))
+        for hname, hh in hedgers:
+            for op in ("get_input", "compute_hedge", "compute_portfolio", "compute_pl"):
+                if op == "get_input" and "prev_hedge" in hname:
+                    continue
+                out.append((f"Hedger({hname}).{op}", (lambda hh=hh: hh.get_input(d, None)) if op == "get_input" else (lambda hh=hh, op=op: getattr(hh, op)(d))))
+        x = torch.tensor([[float(v) for v in r] for r in mk["spot"]], dtype=dt).t().contiguous()
+        tg = torch.ones_like(x) * 0.5
+        for cname, crit in (("EntropicRiskMeasure", nn.EntropicRiskMeasure()), ("ExpectedShortfall", nn.ExpectedShortfall(0.5)), ("QuadraticCVaR", nn.QuadraticCVaR(2.0))):
+            out.append((f"{cname}.forward", lambda crit=crit: crit(x, tg)))
+            out.append((f"{cname}.cash", lambda crit=crit: crit.cash(x, tg)))
+        xs_pos = x.t().contiguous()
+        out.append(("autogreek.delta[spot,volatility]", lambda: ag_s.delta(lambda spot, volatility, time_to_maturity: spot * spot * volatility + time_to_maturity * spot,
+                                                                           spot=xs_pos, volatility=torch.ones_like(xs_pos) * 0.2, time_to_maturity=torch.ones_like(xs_pos) * 0.5)))
+        return out
+
+    def stream_follow(kind, spec):
+        """newly built objects for what simulates afterwards -> thunk returning (answer, the series the underlier holds afterwards)"""
+        prim, cost, step, opt, strike, npaths, ms, g_val = spec
+        u_ = getattr(I, prim)(cost=cost, dt=step, dtype=dt)
+        d_ = getattr(I, opt)(u_, strike=strike, maturity=4 * step)
+        if kind == "Hedger(Naked,[empty]).price":
+            h_ = Hedger(nn.Naked(), ["empty"])
+        else:
+            h_ = Hedger(model_obj(torch, ms), ["log_moneyness", "time_to_maturity"])
+
+        def run():
+            if kind == "derivative.simulate":
+                ans = d_.simulate(n_paths=npaths)
+            elif kind == "stock.simulate":
+                ans = u_.simulate(n_paths=npaths, time_horizon=4 * step)
+            elif kind == "Hedger.fit":
+                with torch.enable_grad():
+                    ans = h_.fit(d_, n_epochs=2, n_paths=npaths, n_times=1, optimizer=torch.optim.Adam, verbose=False, validation=g_val)
+                ans = torch.cat([p_.detach().double().reshape(-1) for p_ in h_.parameters()] + [torch.tensor(ans if ans is not None else [], dtype=dt).reshape(-1)])
+            else:
+                with torch.no_grad():
+                    ans = getattr(h_, kind.split(".")[1])(d_, n_paths=npaths)
+            return ans, {bn: b_.detach().clone() for bn, b_ in u_.named_buffers()}
+        return run
+
+    n_stream = 1 if ctx.tier == "quick" else 8
+    sidx = 0
+    for it in range(n_stream):
+        mk = gen_market(g)
+        d, u = build_derivative(torch, mk)
+        thr = g.choice([x for p in mk["spot"] for x in p])
+        comps = stream_computations(mk, d, thr)
+        for cname, thunk in comps:
+            kind = STREAM_FOLLOW[sidx % len(STREAM_FOLLOW)]
+            sidx += 1
+            spec = (g.choice(["BrownianStock", "HestonStock", "MertonJumpStock"]), g.choice([0.0, 1e-3]), g.choice([1 / 250, 1 / 100]),
+                    g.choice(["EuropeanOption", "LookbackOption"]), g.choice([0.9, 1.0, 1.1]), g.choice([4, 7, 16]), gen_linear(g, 2, 1, relu=False), g.chance(0.5))
+            seed = g.randint(0, 10 ** 6)
+            case = {"computation": cname, "then": kind, "seed": seed, "follow_up": [str(x_) for x_ in spec[:6]], "option": mk["option"], "primary": mk["primary"],
+                    "T": mk["T"], "N": mk["N"], "spot": enc_rat(mk["spot"])}
+            ctx.case(case, True, tag="rng_stream")
+            ctx.traces += 1
+            runs = []
+            for with_history in (True, False):
+                follow = stream_follow(kind, spec)
+                torch.manual_seed(seed)
+                if with_history:
+                    rng0 = torch.get_rng_state()
+                    st_c = call_impl(thunk, watch=[("derivative", d)])[0]
+                    ctx.stats[f"rng_stream:computation:{st_c}"] += 1
+                    rng_check(cname, rng0, case)
+                st, v, _ = call_impl(follow)
+                runs.append((st, v))
+            ctx.stats[f"rng_stream:{kind}:{runs[0][0]}"] += 1
+            (s1, v1), (s2, v2) = runs
+            same = s1 == s2 and (s1 != "ok" or (same_result(("ok", v1[0]), ("ok", v2[0])) and v1[1].keys() == v2[1].keys()
+                                                and all(same_result(("ok", v1[1][k_]), ("ok", v2[1][k_])) for k_ in v1[1])))
+            if not same:
+                ctx.fail(f"inside one seeded run, what {kind} simulates / answers after {cname} on another (already simulated) derivative differs from the same run without "
+                         "that computation: the series simulated afterwards depend on which computations ran before", case, key=f"rng_stream:{cname}",
+                         detail={"with_computation": str(v1)[:300], "without": str(v2)[:300]})
     # ------------------------------------------------------------------ history independence II: the INSTRUMENT objects are reused
     # one underlier object (with one or two derivatives on it) lives through dtype changes (to(float32) / to(float64)), re-simulations
     # with other path counts and hedging by long-lived hedgers; every hedging result is compared with that of a NEWLY constructed
@@ -1459,6 +1594,9 @@ def check(ctx):
              "object re-bound / deep copy renewed / object handed to a Hedger, read again at k+1, other steps, None vs a newly constructed object; 16 fixed barrier scenarios + random); "
              "shared feature objects reading the hedger III d (ModuleOutput over prev_hedge / nested / PrevHedge instance / FeatureList members shared by two hedgers after .of(...) / get_input / "
              "a third hedger used them, on the same and on another derivative, vs a fresh hedger with newly built feature objects; 35 fixed scenarios + random); "
+             "global random stream: torch.get_rng_state() bitwise unchanged by every monitored call / non-simulating hedger call of the histories; a computation (every feature, payoff, "
+             "listed price, hedger computations with empty / zeros / ModuleOutput / prev_hedge inputs, BS / WW, criteria, autogreek) followed by simulate / price / compute_loss / fit "
+             "inside one seeded run vs the same run without it (series and answers bitwise; 54-64 fixed scenarios per market); "
              "every case non-trivial; distinct = sha1 of canonical case")
 
 
